@@ -91,7 +91,7 @@ func (c c03) Gen(rt *rapid.T, thorough bool) any {
 			ops = append(ops, EvOp{
 				Kind: rapid.IntRange(0, 4).Draw(rt, "kind"),
 				Size: rapid.SampledFrom(c03Sizes).Draw(rt, "size"),
-				Ctx:  rapid.IntRange(0, 3).Draw(rt, "ctx"),
+				Ctx:  rapid.IntRange(0, 3).Draw(rt, "ctx") | rapid.SampledFrom([]int{0, 0, 0, 0, 4, 8}).Draw(rt, "ctx_done3"),
 			})
 		}
 		s.Ops = append(s.Ops, ops)
